@@ -513,6 +513,75 @@ pub fn h_c10_formula_not_or() {
     std::mem::forget((s, f));
 }
 
+// ---- And / Or with a single operand type (keeps the set of `dyn Condition` implementors at two) ----
+
+static mut SEQ: [u8; 4] = [9; 4];
+static mut CALLS: usize = 0;
+static mut ANS4: [bool; 4] = [false; 4];
+#[derive(Clone, Serialize)]
+pub struct Opd {
+    id: u8,
+}
+impl Condition<TagP> for Opd {
+    fn evaluate(&self, _p: &TagP, _s: &mut State<TagP>) -> ExecResult<bool> {
+        unsafe {
+            let k = CALLS;
+            CALLS += 1;
+            if k < 4 {
+                SEQ[k] = self.id;
+                Ok(ANS4[k])
+            } else {
+                Ok(false)
+            }
+        }
+    }
+}
+fn opd(id: u8) -> Box<dyn Condition<TagP>> {
+    Box::new(Opd { id })
+}
+fn junction(is_and: bool, k: usize) {
+    let a = [sym::bool(), sym::bool(), sym::bool(), false];
+    unsafe {
+        ANS4 = a;
+        CALLS = 0;
+        SEQ = [9; 4];
+    }
+    let ops: Vec<Box<dyn Condition<TagP>>> = if k == 2 { vec![opd(0), opd(1)] } else { vec![opd(0), opd(1), opd(2)] };
+    let f = if is_and { And::new(ops) } else { Or::new(ops) };
+    let mut s: State<TagP> = State::new();
+    let r = ok_bool(f.evaluate(&TagP, &mut s));
+    let want = if is_and {
+        a[0] && a[1] && (k == 2 || a[2])
+    } else {
+        a[0] || a[1] || (k == 3 && a[2])
+    };
+    assert!(r == want, "And/Or combine the operand results as the Boolean operators do");
+    unsafe {
+        assert!(CALLS == k, "every operand is evaluated exactly once per evaluation (no short-circuit)");
+        assert!(SEQ[0] == 0 && SEQ[1] == 1 && (k == 2 || SEQ[2] == 2), "each operand once, in order");
+    }
+    vcover!(a[0] != a[1], "operands disagree");
+    std::mem::forget((s, f));
+}
+/// @h tier=thorough bound="And over 2 operands (single operand type), all answers" unwind=3 cost=9 mem=28 timeout=3000
+#[cfg_attr(kani, kani::proof)]
+#[cfg_attr(kani, kani::unwind(3))]
+pub fn h_c10_and2s() {
+    junction(true, 2)
+}
+/// @h tier=thorough bound="Or over 2 operands (single operand type), all answers" unwind=3 cost=9 mem=28 timeout=3000
+#[cfg_attr(kani, kani::proof)]
+#[cfg_attr(kani, kani::unwind(3))]
+pub fn h_c10_or2s() {
+    junction(false, 2)
+}
+/// @h tier=thorough bound="Or over 3 operands (single operand type), all answers" unwind=4 cost=9 mem=28 timeout=2400
+#[cfg_attr(kani, kani::proof)]
+#[cfg_attr(kani, kani::unwind(4))]
+pub fn h_c10_or3s() {
+    junction(false, 3)
+}
+
 // ---- loops make exactly n passes -----------------------------------------------------------------------------------------
 
 static mut PASSES: u32 = 0;
@@ -524,20 +593,38 @@ impl Component<TagP> for Body {
         Ok(())
     }
 }
+/// Counting wrapper around the real `LessThanN` (held by value: static dispatch, so that the only
+/// `dyn Condition` implementor in the harness is this wrapper).
+#[derive(Clone, Serialize)]
+pub struct CountLess {
+    inner: LessThanN<ValueOf<Iterations>>,
+}
+impl Condition<TagP> for CountLess {
+    fn init(&self, p: &TagP, s: &mut State<TagP>) -> ExecResult<()> {
+        unsafe { INITS[0] += 1 };
+        Condition::<TagP>::init(&self.inner, p, s)
+    }
+    fn evaluate(&self, p: &TagP, s: &mut State<TagP>) -> ExecResult<bool> {
+        unsafe { EVALS[0] += 1 };
+        Condition::<TagP>::evaluate(&self.inner, p, s)
+    }
+}
 fn loop_n(n: u32) {
     unsafe {
         PASSES = 0;
-        ANS = [true; 3];
         EVALS = [0; 3];
+        INITS = [0; 3];
     }
-    // the counting operand always answers true; And evaluates both operands on every test
-    let l = Loop::new(LessThanN::iterations::<TagP>(n) & op::<0>(), vec![Box::new(Body) as Box<dyn Component<TagP>>]);
+    let cond: Box<dyn Condition<TagP>> = Box::new(CountLess { inner: LessThanN::from_params(n, ValueOf::<Iterations>::new()) });
+    // the body is handed over as a boxed component (no Block in between)
+    let l = Loop::new(cond, Box::new(Body) as Box<dyn Component<TagP>>);
     let mut s: State<TagP> = State::new();
     assert!(l.init(&TagP, &mut s).is_ok(), "loop init");
     assert!(l.execute(&TagP, &mut s).is_ok(), "loop execute");
     unsafe {
         assert!(PASSES == n, "an iteration-bounded loop makes exactly n passes");
         assert!(EVALS[0] as u32 == n + 1, "and tests its condition n+1 times");
+        assert!(INITS[0] == 2, "the condition is initialised with the loop and re-initialised on entry");
     }
     assert!(s.try_get_value::<Iterations>().ok() == Some(n), "the pass counter equals n");
     if n >= 1 {
@@ -546,21 +633,27 @@ fn loop_n(n: u32) {
     vcover!(true, "reached");
     std::mem::forget((s, l));
 }
-/// @h tier=thorough bound="n = 0" unwind=4 cost=9 mem=28 timeout=2400
+/// @h tier=quick bound="n = 0" unwind=3 cost=6 mem=12 timeout=600
 #[cfg_attr(kani, kani::proof)]
-#[cfg_attr(kani, kani::unwind(4))]
+#[cfg_attr(kani, kani::unwind(3))]
 pub fn h_c10_loop_0() {
     loop_n(0)
 }
-/// @h tier=thorough bound="n = 1" unwind=4 cost=9 mem=28 timeout=2400
+/// @h tier=quick bound="n = 1" unwind=3 cost=7 mem=16 timeout=900
 #[cfg_attr(kani, kani::proof)]
-#[cfg_attr(kani, kani::unwind(4))]
+#[cfg_attr(kani, kani::unwind(3))]
 pub fn h_c10_loop_1() {
     loop_n(1)
 }
-/// @h tier=thorough bound="n = 2" unwind=5 cost=9 mem=28 timeout=1800
+/// @h tier=quick bound="n = 2" unwind=4 cost=7 mem=16 timeout=900
 #[cfg_attr(kani, kani::proof)]
-#[cfg_attr(kani, kani::unwind(5))]
+#[cfg_attr(kani, kani::unwind(4))]
 pub fn h_c10_loop_2() {
     loop_n(2)
+}
+/// @h tier=quick bound="n = 3" unwind=5 cost=8 mem=16 timeout=900
+#[cfg_attr(kani, kani::proof)]
+#[cfg_attr(kani, kani::unwind(5))]
+pub fn h_c10_loop_3() {
+    loop_n(3)
 }
